@@ -677,7 +677,10 @@ pub fn partial_liquidation_reply(
 
     let liquidation_fee: Uint128 = liquidation_penalty.checked_div(Uint128::from(2u64))?;
 
-    if position.size < Integer::zero() {
+    // the side is taken before the slice is removed: a 100% slice leaves a size of zero
+    let is_short = position.size < Integer::zero();
+
+    if is_short {
         position.size += Integer::new_positive(input);
     } else {
         position.size += Integer::new_negative(input);
@@ -693,17 +696,16 @@ pub fn partial_liquidation_reply(
     // long: unrealizedPnl = positionNotional - openNotional => openNotional = positionNotional - unrealizedPnl
     // short: unrealizedPnl = openNotional - positionNotional => openNotional = positionNotional + unrealizedPnl
     // positionNotional = oldPositionNotional - exchangedQuoteAssetAmount
-    position.notional = match position.size {
-        Integer {
-            negative: false, ..
-        } => position
-            .notional
-            .checked_sub(swap.open_notional)?
-            .checked_sub(realized_pnl.value)?,
-        Integer { negative: true, .. } => realized_pnl
+    position.notional = if is_short {
+        realized_pnl
             .value
             .checked_add(position.notional)?
-            .checked_sub(swap.open_notional)?,
+            .checked_sub(swap.open_notional)?
+    } else {
+        position
+            .notional
+            .checked_sub(swap.open_notional)?
+            .checked_sub(realized_pnl.value)?
     };
 
     // the position was updated in this block (restriction mode looks at this stamp)
